@@ -266,6 +266,46 @@ def api_lookups(a: int, flag: bool) -> None:
     hlib.done()
 
 
+NEAR = [("%order total% + 1", "%order  total% + 1"), ("%a b%(1)", "%a\tb%(1)"), ("%x y% += 1", "%x  y% += 1"),
+        ("%p q% if %r s% else 0", "%p  q% if %r  s% else 0"), ("[%k 1%, %k  1%]", "[%k  1%, %k 1%]"), ("%q%", " %q% "), ("q.%m n%()", "q.%m  n%()")]
+with hlib.native(unwalled=True):
+    _C18CACHE = {}
+    CACHING = SqParser(parse_cache=_C18CACHE)
+
+
+def api_lookups_cached(pi: int, swap: bool, parse_first: bool) -> None:
+    """
+    pre: 0 <= pi < 7
+    post: True
+    """
+    # a parser with a parse cache that has just handled a NEAR-DUPLICATE of the text (blank runs inside %names% differ):
+    # evaluation still asks the host only for names that list_names reports for THIS text
+    hlib.enter(locals())
+    pi = hlib.concrete(pi, 0, 6)
+    first, text = NEAR[pi][::-1] if swap else NEAR[pi]
+    with hlib.native():
+        _C18CACHE.clear()
+        try:
+            if parse_first:
+                CACHING.parse(first)
+            else:
+                CACHING.eval(first, {})
+        except Exception:
+            pass
+        listed = set(CACHING.list_names(text))
+        fresh = set(PARSER.list_names(text))
+        host = RecDict({})
+        try:
+            CACHING.eval(text, host)
+        except Exception:
+            pass
+        asked = list(host.asked)
+    assert listed == fresh, "list_names(%r) differs between a parser with a parse cache (%r) and one without (%r)" % (text, sorted(listed), sorted(fresh))
+    for k in asked:
+        assert k in listed or k in IMPLICIT, "after %r, evaluating %r asked the host mapping for %r, which list_names does not report" % (first, text, k)
+    hlib.done()
+
+
 with hlib.native(unwalled=True):
     OTHER = SqParser()
 
